@@ -306,15 +306,15 @@ pub fn sum_bound(scn: &FScn) -> Option<u64> {
     best.map(|b| cost + b.max(other_ans))
 }
 
-fn call_json(c: &FCall) -> Value {
+pub(crate) fn call_json(c: &FCall) -> Value {
     json!({"caller": c.idx, "q": c.q, "start_us": c.start, "end_us": c.end, "outcome": c.outcome.text()})
 }
 
-fn log_json(log: &[FEv]) -> Value {
+pub(crate) fn log_json(log: &[FEv]) -> Value {
     Value::Array(log.iter().take(120).map(|e| e.json()).collect())
 }
 
-fn observed(out: &FRun, c: &FCall) -> Value {
+pub(crate) fn observed(out: &FRun, c: &FCall) -> Value {
     json!({
         "caller": call_json(c),
         "all_callers": out.calls.iter().chain(out.later.iter()).map(call_json).collect::<Vec<_>>(),
@@ -323,7 +323,7 @@ fn observed(out: &FRun, c: &FCall) -> Value {
     })
 }
 
-fn okind(scn: &FScn, out: &FRun, o: &Outcome) -> String {
+pub(crate) fn okind(scn: &FScn, out: &FRun, o: &Outcome) -> String {
     match o {
         Outcome::Ok { tc: true, .. } => "ok-tc".into(),
         Outcome::Ok { .. } => "ok".into(),
@@ -340,7 +340,7 @@ fn okind(scn: &FScn, out: &FRun, o: &Outcome) -> String {
     }
 }
 
-const CONNECT_DONE: [&str; 4] = ["tcp-connected", "tcp-refused", "tcp-connect-timeout", "tcp-connect-abandoned"];
+pub(crate) const CONNECT_DONE: [&str; 4] = ["tcp-connected", "tcp-refused", "tcp-connect-timeout", "tcp-connect-abandoned"];
 
 fn upstream(k: &str) -> bool {
     matches!(k, "udp-send" | "tcp-connect" | "tcp-query")
@@ -358,19 +358,19 @@ fn counts_json(m: &BTreeMap<(String, usize, u8), u64>) -> Value {
     Value::Array(m.iter().map(|((k, s, p), n)| json!({"ev": k, "server": s, "proto": pname(*p), "n": n})).collect())
 }
 
-struct J<'a> {
-    rep: &'a mut Reporter,
-    scn: &'a FScn,
-    case: Value,
+pub(crate) struct J<'a> {
+    pub(crate) rep: &'a mut Reporter,
+    pub(crate) scn: &'a FScn,
+    pub(crate) case: Value,
 }
 
 impl<'a> J<'a> {
-    fn viol(&mut self, rule: &str, sig: &str, expected: Value, observed: Value) {
+    pub(crate) fn viol(&mut self, rule: &str, sig: &str, expected: Value, observed: Value) {
         self.rep.violation(rule, sig, self.case.clone(), expected, observed);
     }
 
     /// (ii) + nx-untrusted for one completed lookup
-    fn result_clauses(&mut self, out: &FRun, c: &FCall, kind: &str) {
+    pub(crate) fn result_clauses(&mut self, out: &FRun, c: &FCall, kind: &str) {
         let scn = self.scn;
         self.rep.eval();
         // window of the (shared) lookup this caller took part in: it may have joined an identical
